@@ -150,7 +150,7 @@ func CheckC12(r *Run) int {
 	sites = rest
 	nSites, window := 70, 2
 	if !quick {
-		nSites, window = 300, 3
+		nSites, window = 600, 2
 	}
 	if nSites > len(sites) {
 		nSites = len(sites)
